@@ -38,6 +38,25 @@ static void* mtx_addr[SCHED_MAX_MUTEXES];
 static int mtx_owner[SCHED_MAX_MUTEXES];
 static void (*the_body)(int, void*);
 static void* the_arg;
+static unsigned long long obs[SCHED_MAX_THREADS]; /* observation digest per thread */
+static int passed[SCHED_MAX_THREADS];             /* scheduling points passed per thread */
+static unsigned long long (*state_fn)(void);
+
+static unsigned long long mix(unsigned long long h, unsigned long long v)
+{
+    h ^= v + 0x9e3779b97f4a7c15ull + (h << 6) + (h >> 2);
+    return h * 0xff51afd7ed558ccdull;
+}
+void sched_observe(unsigned long long value)
+{
+    int id = my_id;
+    if (id >= 0 && __atomic_load_n(&active, __ATOMIC_SEQ_CST))
+        obs[id] = mix(obs[id], value);
+}
+void sched_set_state_fn(unsigned long long (*fn)(void))
+{
+    state_fn = fn;
+}
 
 static long futex(int* uaddr, int op, int val)
 {
@@ -112,6 +131,8 @@ void sched_run(int nthreads, void (*body)(int, void*), void* arg, const unsigned
     memset(go, 0, sizeof go);
     memset(pend_op, 0, sizeof pend_op);
     memset(mtx_addr, 0, sizeof mtx_addr);
+    memset(obs, 0, sizeof obs);
+    memset(passed, 0, sizeof passed);
     nthr = nthreads;
     the_body = body;
     the_arg = arg;
@@ -186,6 +207,23 @@ void sched_run(int nthreads, void (*body)(int, void*), void* arg, const unsigned
                 r->running_enabled = (unsigned char)(running >= 0 && n_en > 0 && en[0] == running);
                 for (i = 0; i < nthreads; i++)
                     r->op[i] = (unsigned char)(state[i] == ST_PARKED ? pend_op[i] : 0);
+                {
+                    /* every thread is parked or finished: the whole program state can be read */
+                    unsigned long long h = 0x1234567ull;
+                    for (i = 0; i < nthreads; i++)
+                    {
+                        h = mix(h, (unsigned long long)state[i]);
+                        h = mix(h, (unsigned long long)(state[i] == ST_PARKED ? pend_op[i] : 0));
+                        h = mix(h, (unsigned long long)passed[i]);
+                        h = mix(h, obs[i]);
+                    }
+                    for (i = 0; i < SCHED_MAX_MUTEXES; i++)
+                        if (mtx_addr[i])
+                            h = mix(h, (unsigned long long)(mtx_owner[i] + 2) * 31 + (unsigned long long)i);
+                    if (state_fn)
+                        h = mix(h, state_fn());
+                    r->state = h;
+                }
                 res->n_points = np + 1;
             }
             else
@@ -204,6 +242,7 @@ void sched_run(int nthreads, void (*body)(int, void*), void* arg, const unsigned
                     res->trylock_failures++;
             }
             running = chosen;
+            passed[chosen]++;
             __atomic_store_n(&state[chosen], ST_RUNNING, __ATOMIC_SEQ_CST);
             __atomic_store_n(&go[chosen], 1, __ATOMIC_SEQ_CST);
             wake(&go[chosen]);
@@ -238,8 +277,11 @@ int pthread_mutex_unlock(pthread_mutex_t* m)
 }
 int pthread_mutex_trylock(pthread_mutex_t* m)
 {
+    int r;
     sched_point(SP_TRYLOCK, m);
-    return real_mutex_trylock(m);
+    r = real_mutex_trylock(m);
+    sched_observe((unsigned long long)(r == 0));
+    return r;
 }
 /* Timed acquisition (std::timed_mutex::try_lock_for/until): for a scheduled thread the waiting time is owned by the
  * scheduler - if the mutex is held at this point the time-out is taken to elapse (any time-out can), otherwise the
@@ -251,8 +293,11 @@ int pthread_mutex_timedlock(pthread_mutex_t* m, const struct timespec* ts)
     static int (*real)(pthread_mutex_t*, const struct timespec*);
     if (sched_active_thread() >= 0)
     {
+        int r;
         sched_point(SP_TRYLOCK, m);
-        return real_mutex_trylock(m) == 0 ? 0 : ETIMEDOUT;
+        r = real_mutex_trylock(m);
+        sched_observe((unsigned long long)(r == 0));
+        return r == 0 ? 0 : ETIMEDOUT;
     }
     if (!real)
         real = (int (*)(pthread_mutex_t*, const struct timespec*))dlsym(RTLD_NEXT, "pthread_mutex_timedlock");
@@ -263,8 +308,11 @@ int pthread_mutex_clocklock(pthread_mutex_t* m, clockid_t c, const struct timesp
     static int (*real)(pthread_mutex_t*, clockid_t, const struct timespec*);
     if (sched_active_thread() >= 0)
     {
+        int r;
         sched_point(SP_TRYLOCK, m);
-        return real_mutex_trylock(m) == 0 ? 0 : ETIMEDOUT;
+        r = real_mutex_trylock(m);
+        sched_observe((unsigned long long)(r == 0));
+        return r == 0 ? 0 : ETIMEDOUT;
     }
     if (!real)
         real = (int (*)(pthread_mutex_t*, clockid_t, const struct timespec*))dlsym(RTLD_NEXT, "pthread_mutex_clocklock");
